@@ -108,6 +108,45 @@ let rec run_case (kind : string) (body : sexp list) : string * string =
         else sts in
       let connected = (match atom (List.nth body 1) with "never" | "dead" -> false | _ -> true) in
       (show_segs (run_finalize_segs_from connected sh sts), "UNSPECIFIED")
+  | "tofuture" ->
+      let ls = List.map (function Atom "poll" -> FPoll | e -> FEv (ev_of e)) (args (List.nth body 0)) in
+      let show = function
+        | FPending -> "pending"
+        | FReady (MOk v) -> let b = Buffer.create 8 in show_val b v; "(ready (ok " ^ Buffer.contents b ^ "))"
+        | FReady (MErr e) -> Printf.sprintf "(ready (err %d))" (int_of_z e)
+        | FReady MEmpty -> "(ready empty)"
+        | FReady MMultiple -> "(ready multiple)" in
+      let r = String.concat " " (List.map show (run_future false ls)) in
+      (r, r)
+  | "tostream" ->
+      let ls = List.map (function Atom "poll" -> FPoll | e -> FEv (ev_of e)) (args (List.nth body 0)) in
+      let show = function
+        | SPending -> "pending"
+        | SReady (SItem v) -> let b = Buffer.create 8 in show_val b v; "(item " ^ Buffer.contents b ^ ")"
+        | SReady (SErrItem e) -> Printf.sprintf "(erritem %d)" (int_of_z e)
+        | SReady SEnd -> "end" in
+      let r = String.concat " " (List.map show (run_stream false ls)) in
+      (r, r)
+  | "status" ->
+      (* the flag follows the first terminal; a waiter always returns (C14_no_lost_wakeup: whatever the
+         interleaving of the producer's store / wake with the waiter's check / register / re-check) *)
+      let flag = ref 0 in
+      let out = ref [] in
+      let term e = (match e with Done -> if !flag = 0 then flag := 1 | Err _ -> if !flag = 0 then flag := -1 | Next _ -> ()) in
+      List.iter (fun l -> match l with
+          | Atom "flags" ->
+              out := Printf.sprintf "(flags %s %s %s)" (if !flag <> 0 then "#t" else "#f") (if !flag > 0 then "#t" else "#f") (if !flag < 0 then "#t" else "#f") :: !out
+          | List (Atom "wait" :: Atom w :: e :: _) ->
+              let sched = (match w with
+                  | "before" -> [PStore false; PWake; WCheck; WRegister; WRecheck]
+                  | "at_yield" -> [WCheck; PStore false; PWake; WRegister; WRecheck]
+                  | _ -> [WCheck; WRegister; WRecheck; PStore false; PWake]) in
+              term (ev_of e);
+              (* a terminal that comes too late for the flag (a second one) wakes nobody: the waiter has returned at once *)
+              out := (if waiter_safe (wrun false sched) then "returned" else "HANG") :: !out
+          | e -> term (ev_of e)) (args (List.nth body 0));
+      let r = String.concat " " (List.rev !out) in
+      (r, r)
   | "share" ->
       (* (share FORM SRC share|publish (ops OP...)) *)
       let src = (match List.nth body 1 with Atom "hot" -> ShHot | c -> ShCold (List.map ev_of (args c))) in
